@@ -308,7 +308,21 @@ def rule_recurrent_error_exit(ctx: Ctx, out: Collector) -> None:
                             'wait forever (the error is seen only by accident when the failing node is the direct predecessor)',
                             path_text(g, res[0]), props={'C02', 'C10', 'C11'})
     if n == 0:
-        raise AnalysisError('no error test inside a re-iteration loop found (RC-9 anchor vanished)')
+        # the iterations are not a range loop with an error test in its body: decided over the recurrent worlds
+        from .rcw import error_exit_worlds
+        try:
+            driver, problems, table = error_exit_worlds(ctx)
+        except AnalysisError as ex:
+            raise AnalysisError(f'no error test inside a re-iteration loop found, and {ex} (RC-9 anchor vanished)')
+        cons = f'{driver.module.name}::{driver.qualname}::error exit of a re-iteration gives the destination an outcome'
+        if not problems:
+            out.ok('RC-9', cons, ctx.p.loc(driver, driver.node), 'after a failing re-iteration the destination has a visible outcome, or the driver raises', table=table)
+        else:
+            out.bad('RC-9', cons, ctx.p.loc(driver, driver.node),
+                    'when a re-iteration of the subgraph fails the driver just returns: the destination keeps its hidden Recurrent '
+                    'marker, nothing is published or notified for it, so its consumers - and a one-of owner more than one hop away - '
+                    'wait forever (the error is seen only by accident when the failing node is the direct predecessor): ' + '; '.join(problems),
+                    table=table, props={'C02', 'C10', 'C11'})
 
 
 # ---------------------------------------------------------------------------------------------
